@@ -100,6 +100,8 @@ fn weighted_k_means_plusplus<F: Float, D: Distance<F>>(
 
         // The probability of a point being selected as the next centroid is proportional to its
         // distance from its closest centroid multiplied by its weight.
+        #[cfg(linfa_verif)]
+        super::algorithm::verif::sum("plusplus", dists.len());
         dists *= &weights;
         let centroid_idx = WeightedIndex::new(dists.iter())
             .map(|idx| idx.sample(rng))
@@ -236,6 +238,8 @@ fn cluster_membership_counts<F: Float, D: Distance<F>>(
     let mut memberships = Array1::zeros(n_samples);
     update_cluster_memberships(dist_fn, centroids, observations, &mut memberships);
     let mut counts = Array1::zeros(n_clusters);
+    #[cfg(linfa_verif)]
+    super::algorithm::verif::sum("membership_counts", memberships.len());
     memberships.iter().for_each(|&c| counts[c] += F::one());
     counts
 }
